@@ -426,8 +426,64 @@ func (fc *FCtx) execReturn(s *ast.ReturnStmt, st *State) {
 // ---------------------------------------------------------------------------------------------
 
 type loopVars struct {
-	objs  []types.Object
-	ghost bool
+	objs     []types.Object
+	ghost    bool
+	ghostSet map[string]bool // ghosts written by the body (from a dry run); nil = unknown (all)
+}
+
+// dryRunGhosts executes a loop body once on a scratch copy of the state, discarding every obligation
+// and exit it produces, and reports which ghost variables the body writes on some path. The executor
+// explores all syntactic paths (it never prunes by feasibility), so a ghost that is unchanged in every
+// end state of the dry run is not written by the body at all.
+func (fc *FCtx) dryRunGhosts(st *State, body func(s *State) []*State) (changed map[string]bool) {
+	nObl := len(fc.Obls)
+	counters := map[string]int{}
+	for k, v := range fc.counters {
+		counters[k] = v
+	}
+	fr := fc.frame()
+	nRet := len(fr.returns)
+	nTerm := len(fc.termination)
+	cacheN := fc.cacheN
+	mayPanic, recoverLit := fc.mayPanic, fc.recoverLit
+	guards := append([]string(nil), fc.guards...)
+	changed = map[string]bool{}
+	defer func() {
+		fc.Obls = fc.Obls[:nObl]
+		fc.counters = counters
+		fr.returns = fr.returns[:nRet]
+		fc.termination = fc.termination[:nTerm]
+		fc.cacheN = cacheN
+		fc.mayPanic, fc.recoverLit = mayPanic, recoverLit
+		fc.guards = guards
+		fc.frames = fc.frames[:indexOfFrame(fc.frames, fr)+1]
+	}()
+	s := st.clone()
+	before := map[string]string{}
+	for g, v := range s.ghost {
+		before[g] = v.T
+	}
+	ends := body(s)
+	for _, r := range fr.returns[nRet:] {
+		ends = append(ends, r.st)
+	}
+	for _, e := range ends {
+		for g, v := range e.ghost {
+			if b, ok := before[g]; ok && b != v.T {
+				changed[g] = true
+			}
+		}
+	}
+	return changed
+}
+
+func indexOfFrame(fs []*frame, f *frame) int {
+	for i, x := range fs {
+		if x == f {
+			return i
+		}
+	}
+	return len(fs) - 1
 }
 
 // modifiedIn computes the local variables assigned in a statement (syntactically).
@@ -545,6 +601,9 @@ func (fc *FCtx) havoc(st *State, lv loopVars) {
 			if !fc.loopMayModify(g) {
 				continue
 			}
+			if lv.ghostSet != nil && !lv.ghostSet[g] {
+				continue
+			}
 			old := st.ghost[g]
 			n := fc.U.Fresh("g_"+g, old.S)
 			st.ghost[g] = Val{T: n, S: old.S, GoT: old.GoT}
@@ -563,7 +622,7 @@ func (fc *FCtx) loopMayModify(g string) bool {
 
 func (fc *FCtx) checkLoopFrame(ord int, head, end *State, pos token.Pos) {
 	for _, g := range fc.ghostNames(head) {
-		if fc.loopMayModify(g) {
+		if fc.loopMayModify(g) && (fc.curGhostSet == nil || fc.curGhostSet[g]) {
 			continue
 		}
 		ev, ok := end.ghost[g]
@@ -649,6 +708,30 @@ func (fc *FCtx) execFor(s *ast.ForStmt, st *State, label string) *Flow {
 		lv2 := fc.modifiedIn(s.Cond)
 		lv.ghost = lv.ghost || lv2.ghost
 	}
+	if lv.ghost {
+		lv.ghostSet = fc.dryRunGhosts(st, func(d *State) []*State {
+			if s.Cond != nil {
+				fc.evalBool(s.Cond, d)
+			}
+			f := fc.execBlock(s.Body.List, d)
+			ends := append([]*State{}, f.normal...)
+			for _, v := range f.cont {
+				ends = append(ends, v...)
+			}
+			for _, v := range f.brk {
+				ends = append(ends, v...)
+			}
+			if s.Post != nil {
+				var out []*State
+				for _, e := range ends {
+					fp := fc.execStmt(s.Post, e, "")
+					out = append(out, fp.normal...)
+				}
+				ends = append(ends, out...)
+			}
+			return ends
+		})
+	}
 	h := st.clone()
 	fc.havoc(h, lv)
 	fc.assumeInvs(ord, ls, h, nil, bodyPos)
@@ -678,7 +761,9 @@ func (fc *FCtx) execFor(s *ast.ForStmt, st *State, label string) *Flow {
 		}
 		if e != nil {
 			fc.checkInvs("inv-preserve", ord, ls, e, nil, bodyPos)
+			fc.curGhostSet = lv.ghostSet
 			fc.checkLoopFrame(ord, h, e, bodyPos)
+			fc.curGhostSet = nil
 		}
 	}
 	// exit
@@ -730,6 +815,40 @@ func (fc *FCtx) execRange(s *ast.RangeStmt, st *State, label string) *Flow {
 	sp0 := loopSpecials{"#i": Val{T: "0", S: SInt}, "#n": Val{T: n, S: SInt}, "#coll": coll}
 	fc.checkInvs("inv-establish", ord, ls, st, sp0, bodyPos)
 	lv := fc.modifiedIn(s.Body)
+	if lv.ghost {
+		lv.ghostSet = fc.dryRunGhosts(st, func(d *State) []*State {
+			dgi := fc.U.Fresh("dry_ri", SInt)
+			if s.Key != nil {
+				if id, ok := s.Key.(*ast.Ident); ok && id.Name != "_" {
+					if obj := fc.info().ObjectOf(id); obj != nil {
+						d.vars[obj] = Val{T: dgi, S: SInt, GoT: types.Typ[types.Int]}
+					}
+				}
+			}
+			if s.Value != nil {
+				if id, ok := s.Value.(*ast.Ident); ok && id.Name != "_" {
+					if obj := fc.info().ObjectOf(id); obj != nil {
+						var ev Val
+						if coll.S.Kind == KSlice {
+							ev = Val{T: fmt.Sprintf("(select %s %s)", slEl(coll), dgi), S: coll.S.Elem, GoT: elemType(coll.GoT)}
+						} else {
+							ev = Val{T: fmt.Sprintf("(bz_at %s %s)", coll.T, dgi), S: SInt, GoT: types.Typ[types.Uint8]}
+						}
+						d.vars[obj] = fc.coerce(ev, obj.Type())
+					}
+				}
+			}
+			f := fc.execBlock(s.Body.List, d)
+			ends := append([]*State{}, f.normal...)
+			for _, v := range f.cont {
+				ends = append(ends, v...)
+			}
+			for _, v := range f.brk {
+				ends = append(ends, v...)
+			}
+			return ends
+		})
+	}
 	h := st.clone()
 	// key/value variables are per-iteration; havoc modified
 	fc.havoc(h, lv)
@@ -776,7 +895,9 @@ func (fc *FCtx) execRange(s *ast.RangeStmt, st *State, label string) *Flow {
 	if e := fc.merge(ends); e != nil {
 		sp1 := loopSpecials{"#i": Val{T: fmt.Sprintf("(+ %s 1)", gi), S: SInt}, "#n": Val{T: n, S: SInt}, "#coll": coll}
 		fc.checkInvs("inv-preserve", ord, ls, e, sp1, bodyPos)
+		fc.curGhostSet = lv.ghostSet
 		fc.checkLoopFrame(ord, h, e, bodyPos)
+		fc.curGhostSet = nil
 	}
 	x := h.clone()
 	x.assume(fmt.Sprintf("(= %s %s)", gi, n))
